@@ -18,8 +18,12 @@ fn pick_n(rng: &mut Rng, idx: u64) -> u64 {
 fn case(rng: &mut Rng, idx: u64, rec: &mut Rec) {
     let n = pick_n(rng, idx);
     let use_call = rng.chance(1, 4);
-    let variant = rng.below(4) as u8;
-    rec.cov(&format!("sender-variant/{}", variant));
+    // sender variants: explicit Host, despite-method GET, and (one case in four) the Expect routes
+    let variant = rng.below(4) as u8 | [0u8, 0, 0, 8, 16, 0, 0, 0][rng.below(8) as usize] | (rng.below(4) as u8) << 5;
+    rec.cov(&format!("sender-variant/{}", variant & 31));
+    if !use_call && variant & 24 != 0 {
+        rec.cov(if variant & 8 != 0 { "sender-route/expect-gave-up" } else { "sender-route/expect-got-100" });
+    }
     let mut s = match crate::drive::body_sender_ex(Some(n), false, use_call, variant) {
         Ok(s) => s,
         Err(e) => {
@@ -159,7 +163,7 @@ impl Property for P {
         "C04"
     }
     fn rule(&self) -> String {
-        "reference model = a countdown from N. Random histories (1..40 ops) of write / empty write / consume_direct_write / overshoot-by-one against Flow<SendBody> and Call<WithBody>; each result must equal the model (consumed == produced == min(input, space, remaining), bytes identical, refusals leave no trace, finished <=> remaining == 0 once observed). N sweeps 0..=70000 plus u32/u64 extremes. class = (remaining 0/1/>1) x (input vs remaining) x (buffer vs input) and direct-write kinds.".into()
+        "reference model = a countdown from N. Random histories (1..40 ops) of write / empty write / consume_direct_write / overshoot-by-one against Flow<SendBody> and Call<WithBody>; each result must equal the model (consumed == produced == min(input, space, remaining), bytes identical, refusals leave no trace, finished <=> remaining == 0 once observed). N sweeps 0..=70000 plus u32/u64 extremes. Senders: POST, GET/TRACE/DELETE/OPTIONS through the escape hatch, explicit Host, and flows that reached SendBody through Await100 (gave up, or 100 received). class = (remaining 0/1/>1) x (input vs remaining) x (buffer vs input) and direct-write kinds.".into()
     }
     fn assumptions(&self) -> Vec<String> {
         vec!["a refused call is only known to have had no effect through the model continuing to match afterwards".into()]
@@ -180,6 +184,8 @@ impl Property for P {
             ("direct/overshoot".into(), 100),
             ("direct/exact".into(), 100),
             ("finished".into(), 1000),
+            ("sender-route/expect-gave-up".into(), 500),
+            ("sender-route/expect-got-100".into(), 500),
         ]
     }
 }
